@@ -314,7 +314,7 @@ def build_engine(kind="plain"):
     elif kind == "hard":
         cmd += ["-D_GLIBCXX_ASSERTIONS", "-g"]
     elif kind == "asan":
-        cmd += ["-D_GLIBCXX_ASSERTIONS", "-g", "-fsanitize=address,undefined", "-fno-omit-frame-pointer"]
+        cmd += ["-D_GLIBCXX_ASSERTIONS", "-g", "-fsanitize=address,undefined,float-cast-overflow", "-fno-omit-frame-pointer"]     # (float-cast-overflow is not part of `undefined` in GCC)
     cmd += ["-I", ENGINE_SRC, src, "-o", out]
     rc, log = run(cmd, timeout=300)
     if rc != 0:
